@@ -19,11 +19,13 @@ Definition with_indexes (st : state) (ixs : list index) : state :=
   let sch := st_sch st in
   mkst (mksch (s_id sch) (s_fields sch) ixs (s_next sch) (s_nz sch)) (st_docs st).
 
-Definition nz_safe (st : state) (q : query) : Prop :=
-  s_nz (st_sch st) = false \/
-  ((forall r name, In r (live_rows st) -> nnz (col_val0 (st_sch st) r name)) /\
-   (forall gs, conv_groups (st_sch st) (q_groups q) = Ok gs ->
-      forall g, In g gs -> forall c, In c g -> nnz (cc_val c))).
+(* every converted constant can be a key bound (not a negative zero when the key encoder keeps the
+   sign of zero, no string longer than the column), and no row holds a negative zero in that case *)
+Definition consts_ok (st : state) (q : query) : Prop :=
+  forall gs, conv_groups (st_sch st) (q_groups q) = Ok gs -> consts_kc (s_nz (st_sch st)) gs.
+Definition rows_kc (st : state) : Prop :=
+  forall r name, In r (live_rows st) -> kc_ok (s_nz (st_sch st)) (col_val0 (st_sch st) r name).
+Definition nz_safe (st : state) (q : query) : Prop := rows_kc st /\ consts_ok st q.
 
 Lemma filter_filter_absorb {A} (f g : A -> bool) (l : list A) :
   (forall x, In x l -> f x = true -> g x = true) -> filter f (filter g l) = filter f l.
@@ -64,22 +66,32 @@ Proof.
     + apply cmp_le_true; exact B.
 Qed.
 
+Lemma bounds_not_too_long nz gs cols :
+  consts_kc nz gs ->
+  existsb cv_too_long (fst (key_bounds cols (where_ranges gs) false false) ++
+                       snd (key_bounds cols (where_ranges gs) false false)) = false.
+Proof.
+  intros K. destruct (existsb cv_too_long _) eqn:E; auto.
+  apply existsb_exists in E as [v [Hin Hv]].
+  eapply key_bounds_vals in Hin; [|apply where_ranges_kc; exact K].
+  destruct Hin as [_ Hs]. congruence.
+Qed.
+
 Theorem engine_is_plain st q : nz_safe st q -> engine_matched st q = plain_matched st q.
 Proof.
-  intros Hz. unfold engine_matched, plain_matched.
+  intros [Hr Hc]. unfold engine_matched, plain_matched.
   destruct (conv_groups (st_sch st) (q_groups q)) as [gs| |] eqn:CG; simpl; auto.
   destruct (check_order (st_sch st) (q_order q)) as [u| |]; simpl; auto.
+  specialize (Hc gs eq_refl).
   set (rm := where_ranges gs).
   set (cols := choose_index (st_sch st) (q_order q) rm).
-  pose proof (surjective_pairing (key_bounds cols rm false false)) as SP.
-  destruct (key_bounds cols rm false false) as [lo hi] eqn:KB. simpl in SP.
+  pose proof (bounds_not_too_long (s_nz (st_sch st)) gs cols Hc) as TL. fold rm in TL.
+  destruct (key_bounds cols rm false false) as [lo hi] eqn:KB. simpl in TL. rewrite TL.
   f_equal. f_equal.
   apply filter_filter_absorb. intros r Hin Hw.
   assert (E : lo = fst (key_bounds cols rm false false)) by (rewrite KB; reflexivity).
   assert (E' : hi = snd (key_bounds cols rm false false)) by (rewrite KB; reflexivity).
   rewrite E, E'. apply pruning_keeps_matches; auto.
-  - intros name. destruct Hz as [Hz|[Hz _]]; [left; exact Hz|right; apply Hz; auto].
-  - intros g Hg c Hc. destruct Hz as [Hz|[_ Hz]]; [left; exact Hz|right; eapply Hz; eauto].
 Qed.
 
 Lemma plain_indexes st ixs q : plain_matched (with_indexes st ixs) q = plain_matched st q.
@@ -99,11 +111,20 @@ Proof.
   rewrite !plain_indexes. reflexivity.
 Qed.
 
-(* ... and unconditionally once the key encoder normalises the sign of zero *)
+(* ... and, once the key encoder normalises the sign of zero, for every query whose string
+   constants fit the column *)
+Definition consts_short (st : state) (q : query) : Prop :=
+  forall gs, conv_groups (st_sch st) (q_groups q) = Ok gs ->
+    forall g, In g gs -> forall c, In c g -> cv_too_long (cc_val c) = false.
+
 Theorem index_independent_when_keys_normalised st ixs1 ixs2 q off :
-  s_nz (st_sch st) = false ->
+  s_nz (st_sch st) = false -> consts_short st q ->
   engine_search (with_indexes st ixs1) q off = engine_search (with_indexes st ixs2) q off.
-Proof. intros H. apply index_independent_partial. left; exact H. Qed.
+Proof.
+  intros H S. apply index_independent_partial. split.
+  - intros r name _. left; exact H.
+  - intros gs Hgs g Hg c Hc. split; [left; exact H|eapply S; eauto].
+Qed.
 
 (* ---------- relation to the payloads ---------- *)
 Definition is_int (sch : schema) (name : bytes) : bool :=
